@@ -1,37 +1,108 @@
 /-
-C04 proofs — structural invariants (lmxBind, lmxDes, bindReg): preservation by `exec` and `begin`.
+C04 proofs — structural invariants (lmxBind, lmxDes, bindReg, regPc, actReg, actWas, bindAct): preservation by `exec` and `begin`.
 -/
 import TbbVerif.Proofs.C04.StructA
 
 namespace TbbVerif.C04
-variable {cfg : Cfg} {reg : List Nat} {s : St} {t : Nat}
+variable {cfg : Cfg} {r : List RF} {reg : List Nat} {s : St} {t : Nat}
 
-theorem lmxBind_exec (hS : Struct reg s) :
-    ∀ t' x p sn, (exec cfg reg s t).pc t' = .bRegU x p sn → (exec cfg reg s t).lmx t' = some t' := by
+theorem lmxBind_exec_c (hS : Struct reg s) :
+    ∀ t' x p sn, (execCancel cfg reg s t).pc t' = .bRegU x p sn → (execCancel cfg reg s t).lmx t' = some t' := by
   have g0 := hS.lmxWalk
   have g0t := hS.lmxWalk t
   have g1 := hS.lmxBind
   have g1t := hS.lmxBind t
   have g2 := hS.lmxDes
   have g2t := hS.lmxDes t
-  exec_cases
+  have g3 := hS.lmxOrph
+  have g3t := hS.lmxOrph t
+  unfold execCancel
+  try unfold walkNext
+  try unfold afterHint
+  try unfold applyReset
+  repeat' split
   all_goals (try rw [‹s.pc t = _›] at g0t)
   all_goals (try simp [Pc.walkIdx] at g0t)
   all_goals (try rw [‹s.pc t = _›] at g1t)
   all_goals (try simp [Pc.walkIdx] at g1t)
   all_goals (try rw [‹s.pc t = _›] at g2t)
   all_goals (try simp [Pc.walkIdx] at g2t)
+  all_goals (try rw [‹s.pc t = _›] at g3t)
+  all_goals (try simp [Pc.walkIdx] at g3t)
   all_goals (intro t' x p sn h1; by_cases ht : t' = t <;> first | (subst ht; try simp [upd_apply, afterLists, nextList, Pc.walkIdx] at h1 ⊢) | (try simp [ht, upd_apply, afterLists, nextList] at h1 ⊢))
   all_goals grind [Pc.walkIdx]
 
-theorem lmxBind_begin (hS : Struct reg s) (hi : s.pc t = .idle) :
-    ∀ t' x p sn, (begin reg s t).pc t' = .bRegU x p sn → (begin reg s t).lmx t' = some t' := by
+theorem lmxBind_exec_b (hS : Struct reg s) :
+    ∀ t' x p sn, (execBind cfg s t).pc t' = .bRegU x p sn → (execBind cfg s t).lmx t' = some t' := by
   have g0 := hS.lmxWalk
   have g0t := hS.lmxWalk t
   have g1 := hS.lmxBind
   have g1t := hS.lmxBind t
   have g2 := hS.lmxDes
   have g2t := hS.lmxDes t
+  have g3 := hS.lmxOrph
+  have g3t := hS.lmxOrph t
+  unfold execBind
+  try unfold walkNext
+  try unfold afterHint
+  try unfold applyReset
+  repeat' split
+  all_goals (try rw [‹s.pc t = _›] at g0t)
+  all_goals (try simp [Pc.walkIdx] at g0t)
+  all_goals (try rw [‹s.pc t = _›] at g1t)
+  all_goals (try simp [Pc.walkIdx] at g1t)
+  all_goals (try rw [‹s.pc t = _›] at g2t)
+  all_goals (try simp [Pc.walkIdx] at g2t)
+  all_goals (try rw [‹s.pc t = _›] at g3t)
+  all_goals (try simp [Pc.walkIdx] at g3t)
+  all_goals (intro t' x p sn h1; by_cases ht : t' = t <;> first | (subst ht; try simp [upd_apply, afterLists, nextList, Pc.walkIdx] at h1 ⊢) | (try simp [ht, upd_apply, afterLists, nextList] at h1 ⊢))
+  all_goals grind [Pc.walkIdx]
+
+theorem lmxBind_exec_o (hS : Struct reg s) :
+    ∀ t' x p sn, (execOther s t).pc t' = .bRegU x p sn → (execOther s t).lmx t' = some t' := by
+  have g0 := hS.lmxWalk
+  have g0t := hS.lmxWalk t
+  have g1 := hS.lmxBind
+  have g1t := hS.lmxBind t
+  have g2 := hS.lmxDes
+  have g2t := hS.lmxDes t
+  have g3 := hS.lmxOrph
+  have g3t := hS.lmxOrph t
+  unfold execOther
+  try unfold walkNext
+  try unfold afterHint
+  try unfold applyReset
+  repeat' split
+  all_goals (try rw [‹s.pc t = _›] at g0t)
+  all_goals (try simp [Pc.walkIdx] at g0t)
+  all_goals (try rw [‹s.pc t = _›] at g1t)
+  all_goals (try simp [Pc.walkIdx] at g1t)
+  all_goals (try rw [‹s.pc t = _›] at g2t)
+  all_goals (try simp [Pc.walkIdx] at g2t)
+  all_goals (try rw [‹s.pc t = _›] at g3t)
+  all_goals (try simp [Pc.walkIdx] at g3t)
+  all_goals (intro t' x p sn h1; by_cases ht : t' = t <;> first | (subst ht; try simp [upd_apply, afterLists, nextList, Pc.walkIdx] at h1 ⊢) | (try simp [ht, upd_apply, afterLists, nextList] at h1 ⊢))
+  all_goals grind [Pc.walkIdx]
+
+theorem lmxBind_exec (hS : Struct reg s) :
+    ∀ t' x p sn, (exec cfg reg s t).pc t' = .bRegU x p sn → (exec cfg reg s t).lmx t' = some t' := by
+  unfold exec
+  split
+  · exact lmxBind_exec_c hS
+  · split
+    · exact lmxBind_exec_b hS
+    · exact lmxBind_exec_o hS
+
+theorem lmxBind_begin (hS : Struct reg s) (hi : s.pc t = .idle) :
+    ∀ t' x p sn, (begin cfg reg s t).pc t' = .bRegU x p sn → (begin cfg reg s t).lmx t' = some t' := by
+  have g0 := hS.lmxWalk
+  have g0t := hS.lmxWalk t
+  have g1 := hS.lmxBind
+  have g1t := hS.lmxBind t
+  have g2 := hS.lmxDes
+  have g2t := hS.lmxDes t
+  have g3 := hS.lmxOrph
+  have g3t := hS.lmxOrph t
   begin_cases
   all_goals (try rw [hi] at g0t)
   all_goals (try simp [Pc.walkIdx] at g0t)
@@ -39,22 +110,30 @@ theorem lmxBind_begin (hS : Struct reg s) (hi : s.pc t = .idle) :
   all_goals (try simp [Pc.walkIdx] at g1t)
   all_goals (try rw [hi] at g2t)
   all_goals (try simp [Pc.walkIdx] at g2t)
+  all_goals (try rw [hi] at g3t)
+  all_goals (try simp [Pc.walkIdx] at g3t)
   all_goals (intro t' x p sn h1; by_cases ht : t' = t <;> first | (subst ht; try simp [upd_apply, afterLists, nextList, Pc.walkIdx] at h1 ⊢) | (try simp [ht, upd_apply, afterLists, nextList] at h1 ⊢))
   all_goals grind [Pc.walkIdx]
 
-theorem lmxDes_exec (hS : Struct reg s) :
-    ∀ t' x L, (exec cfg reg s t).pc t' = .dUnlock x → (exec cfg reg s t).lst x = some L → (exec cfg reg s t).lmx L = some t' := by
+theorem lmxDes_exec_c (hS : Struct reg s) :
+    ∀ t' x L, (execCancel cfg reg s t).pc t' = .dUnlock x → (execCancel cfg reg s t).lst x = some L → (execCancel cfg reg s t).lmx L = some t' := by
   have g0 := hS.lmxWalk
   have g0t := hS.lmxWalk t
   have g1 := hS.lmxBind
   have g1t := hS.lmxBind t
   have g2 := hS.lmxDes
   have g2t := hS.lmxDes t
-  have g3 := hS.bindNotDying
-  have g3t := hS.bindNotDying t
-  have g4 := hS.dyingOk
-  have g4t := hS.dyingOk t
-  exec_cases
+  have g3 := hS.lmxOrph
+  have g3t := hS.lmxOrph t
+  have g4 := hS.bindNotDying
+  have g4t := hS.bindNotDying t
+  have g5 := hS.dyingOk
+  have g5t := hS.dyingOk t
+  unfold execCancel
+  try unfold walkNext
+  try unfold afterHint
+  try unfold applyReset
+  repeat' split
   all_goals (try rw [‹s.pc t = _›] at g0t)
   all_goals (try simp [Pc.walkIdx, Pc.bindTarget, Pc.destroying] at g0t)
   all_goals (try rw [‹s.pc t = _›] at g1t)
@@ -65,21 +144,102 @@ theorem lmxDes_exec (hS : Struct reg s) :
   all_goals (try simp [Pc.walkIdx, Pc.bindTarget, Pc.destroying] at g3t)
   all_goals (try rw [‹s.pc t = _›] at g4t)
   all_goals (try simp [Pc.walkIdx, Pc.bindTarget, Pc.destroying] at g4t)
+  all_goals (try rw [‹s.pc t = _›] at g5t)
+  all_goals (try simp [Pc.walkIdx, Pc.bindTarget, Pc.destroying] at g5t)
   all_goals (intro t' x L h1 h2; by_cases ht : t' = t <;> first | (subst ht; try simp [upd_apply, afterLists, nextList, Pc.walkIdx, Pc.bindTarget, Pc.destroying] at h1 h2 ⊢) | (try simp [ht, upd_apply, afterLists, nextList] at h1 h2 ⊢))
   all_goals grind [Pc.walkIdx, Pc.bindTarget, Pc.destroying]
 
-theorem lmxDes_begin (hS : Struct reg s) (hi : s.pc t = .idle) :
-    ∀ t' x L, (begin reg s t).pc t' = .dUnlock x → (begin reg s t).lst x = some L → (begin reg s t).lmx L = some t' := by
+theorem lmxDes_exec_b (hS : Struct reg s) :
+    ∀ t' x L, (execBind cfg s t).pc t' = .dUnlock x → (execBind cfg s t).lst x = some L → (execBind cfg s t).lmx L = some t' := by
   have g0 := hS.lmxWalk
   have g0t := hS.lmxWalk t
   have g1 := hS.lmxBind
   have g1t := hS.lmxBind t
   have g2 := hS.lmxDes
   have g2t := hS.lmxDes t
-  have g3 := hS.bindNotDying
-  have g3t := hS.bindNotDying t
-  have g4 := hS.dyingOk
-  have g4t := hS.dyingOk t
+  have g3 := hS.lmxOrph
+  have g3t := hS.lmxOrph t
+  have g4 := hS.bindNotDying
+  have g4t := hS.bindNotDying t
+  have g5 := hS.dyingOk
+  have g5t := hS.dyingOk t
+  unfold execBind
+  try unfold walkNext
+  try unfold afterHint
+  try unfold applyReset
+  repeat' split
+  all_goals (try rw [‹s.pc t = _›] at g0t)
+  all_goals (try simp [Pc.walkIdx, Pc.bindTarget, Pc.destroying] at g0t)
+  all_goals (try rw [‹s.pc t = _›] at g1t)
+  all_goals (try simp [Pc.walkIdx, Pc.bindTarget, Pc.destroying] at g1t)
+  all_goals (try rw [‹s.pc t = _›] at g2t)
+  all_goals (try simp [Pc.walkIdx, Pc.bindTarget, Pc.destroying] at g2t)
+  all_goals (try rw [‹s.pc t = _›] at g3t)
+  all_goals (try simp [Pc.walkIdx, Pc.bindTarget, Pc.destroying] at g3t)
+  all_goals (try rw [‹s.pc t = _›] at g4t)
+  all_goals (try simp [Pc.walkIdx, Pc.bindTarget, Pc.destroying] at g4t)
+  all_goals (try rw [‹s.pc t = _›] at g5t)
+  all_goals (try simp [Pc.walkIdx, Pc.bindTarget, Pc.destroying] at g5t)
+  all_goals (intro t' x L h1 h2; by_cases ht : t' = t <;> first | (subst ht; try simp [upd_apply, afterLists, nextList, Pc.walkIdx, Pc.bindTarget, Pc.destroying] at h1 h2 ⊢) | (try simp [ht, upd_apply, afterLists, nextList] at h1 h2 ⊢))
+  all_goals grind [Pc.walkIdx, Pc.bindTarget, Pc.destroying]
+
+theorem lmxDes_exec_o (hS : Struct reg s) :
+    ∀ t' x L, (execOther s t).pc t' = .dUnlock x → (execOther s t).lst x = some L → (execOther s t).lmx L = some t' := by
+  have g0 := hS.lmxWalk
+  have g0t := hS.lmxWalk t
+  have g1 := hS.lmxBind
+  have g1t := hS.lmxBind t
+  have g2 := hS.lmxDes
+  have g2t := hS.lmxDes t
+  have g3 := hS.lmxOrph
+  have g3t := hS.lmxOrph t
+  have g4 := hS.bindNotDying
+  have g4t := hS.bindNotDying t
+  have g5 := hS.dyingOk
+  have g5t := hS.dyingOk t
+  unfold execOther
+  try unfold walkNext
+  try unfold afterHint
+  try unfold applyReset
+  repeat' split
+  all_goals (try rw [‹s.pc t = _›] at g0t)
+  all_goals (try simp [Pc.walkIdx, Pc.bindTarget, Pc.destroying] at g0t)
+  all_goals (try rw [‹s.pc t = _›] at g1t)
+  all_goals (try simp [Pc.walkIdx, Pc.bindTarget, Pc.destroying] at g1t)
+  all_goals (try rw [‹s.pc t = _›] at g2t)
+  all_goals (try simp [Pc.walkIdx, Pc.bindTarget, Pc.destroying] at g2t)
+  all_goals (try rw [‹s.pc t = _›] at g3t)
+  all_goals (try simp [Pc.walkIdx, Pc.bindTarget, Pc.destroying] at g3t)
+  all_goals (try rw [‹s.pc t = _›] at g4t)
+  all_goals (try simp [Pc.walkIdx, Pc.bindTarget, Pc.destroying] at g4t)
+  all_goals (try rw [‹s.pc t = _›] at g5t)
+  all_goals (try simp [Pc.walkIdx, Pc.bindTarget, Pc.destroying] at g5t)
+  all_goals (intro t' x L h1 h2; by_cases ht : t' = t <;> first | (subst ht; try simp [upd_apply, afterLists, nextList, Pc.walkIdx, Pc.bindTarget, Pc.destroying] at h1 h2 ⊢) | (try simp [ht, upd_apply, afterLists, nextList] at h1 h2 ⊢))
+  all_goals grind [Pc.walkIdx, Pc.bindTarget, Pc.destroying]
+
+theorem lmxDes_exec (hS : Struct reg s) :
+    ∀ t' x L, (exec cfg reg s t).pc t' = .dUnlock x → (exec cfg reg s t).lst x = some L → (exec cfg reg s t).lmx L = some t' := by
+  unfold exec
+  split
+  · exact lmxDes_exec_c hS
+  · split
+    · exact lmxDes_exec_b hS
+    · exact lmxDes_exec_o hS
+
+theorem lmxDes_begin (hS : Struct reg s) (hi : s.pc t = .idle) :
+    ∀ t' x L, (begin cfg reg s t).pc t' = .dUnlock x → (begin cfg reg s t).lst x = some L → (begin cfg reg s t).lmx L = some t' := by
+  have g0 := hS.lmxWalk
+  have g0t := hS.lmxWalk t
+  have g1 := hS.lmxBind
+  have g1t := hS.lmxBind t
+  have g2 := hS.lmxDes
+  have g2t := hS.lmxDes t
+  have g3 := hS.lmxOrph
+  have g3t := hS.lmxOrph t
+  have g4 := hS.bindNotDying
+  have g4t := hS.bindNotDying t
+  have g5 := hS.dyingOk
+  have g5t := hS.dyingOk t
   begin_cases
   all_goals (try rw [hi] at g0t)
   all_goals (try simp [Pc.walkIdx, Pc.bindTarget, Pc.destroying] at g0t)
@@ -91,23 +251,318 @@ theorem lmxDes_begin (hS : Struct reg s) (hi : s.pc t = .idle) :
   all_goals (try simp [Pc.walkIdx, Pc.bindTarget, Pc.destroying] at g3t)
   all_goals (try rw [hi] at g4t)
   all_goals (try simp [Pc.walkIdx, Pc.bindTarget, Pc.destroying] at g4t)
+  all_goals (try rw [hi] at g5t)
+  all_goals (try simp [Pc.walkIdx, Pc.bindTarget, Pc.destroying] at g5t)
   all_goals (intro t' x L h1 h2; by_cases ht : t' = t <;> first | (subst ht; try simp [upd_apply, afterLists, nextList, Pc.walkIdx, Pc.bindTarget, Pc.destroying] at h1 h2 ⊢) | (try simp [ht, upd_apply, afterLists, nextList] at h1 h2 ⊢))
   all_goals grind [Pc.walkIdx, Pc.bindTarget, Pc.destroying]
 
-theorem bindReg_exec (hS : Struct reg s) :
-    ∀ t', ((exec cfg reg s t).pc t').isBind = true → t' ∈ reg := by
+theorem bindReg_exec_c (hS : Struct reg s) :
+    ∀ t', ((execCancel cfg reg s t).pc t').isBind = true → t' ∈ reg := by
   have g0 := hS.bindReg
   have g0t := hS.bindReg t
-  exec_cases
+  unfold execCancel
+  try unfold walkNext
+  try unfold afterHint
+  try unfold applyReset
+  repeat' split
   all_goals (try rw [‹s.pc t = _›] at g0t)
   all_goals (try simp [Pc.isBind] at g0t)
   all_goals (intro t' h1; by_cases ht : t' = t <;> first | (subst ht; try simp [upd_apply, afterLists, nextList, Pc.isBind] at h1 ⊢) | (try simp [ht, upd_apply, afterLists, nextList] at h1 ⊢))
   all_goals grind [Pc.isBind]
 
-theorem bindReg_begin (hS : Struct reg s) (hi : s.pc t = .idle) :
-    ∀ t', ((begin reg s t).pc t').isBind = true → t' ∈ reg := by
+theorem bindReg_exec_b (hS : Struct reg s) :
+    ∀ t', ((execBind cfg s t).pc t').isBind = true → t' ∈ reg := by
   have g0 := hS.bindReg
   have g0t := hS.bindReg t
+  unfold execBind
+  try unfold walkNext
+  try unfold afterHint
+  try unfold applyReset
+  repeat' split
+  all_goals (try rw [‹s.pc t = _›] at g0t)
+  all_goals (try simp [Pc.isBind] at g0t)
+  all_goals (intro t' h1; by_cases ht : t' = t <;> first | (subst ht; try simp [upd_apply, afterLists, nextList, Pc.isBind] at h1 ⊢) | (try simp [ht, upd_apply, afterLists, nextList] at h1 ⊢))
+  all_goals grind [Pc.isBind]
+
+theorem bindReg_exec_o (hS : Struct reg s) :
+    ∀ t', ((execOther s t).pc t').isBind = true → t' ∈ reg := by
+  have g0 := hS.bindReg
+  have g0t := hS.bindReg t
+  unfold execOther
+  try unfold walkNext
+  try unfold afterHint
+  try unfold applyReset
+  repeat' split
+  all_goals (try rw [‹s.pc t = _›] at g0t)
+  all_goals (try simp [Pc.isBind] at g0t)
+  all_goals (intro t' h1; by_cases ht : t' = t <;> first | (subst ht; try simp [upd_apply, afterLists, nextList, Pc.isBind] at h1 ⊢) | (try simp [ht, upd_apply, afterLists, nextList] at h1 ⊢))
+  all_goals grind [Pc.isBind]
+
+theorem bindReg_exec (hS : Struct reg s) :
+    ∀ t', ((exec cfg reg s t).pc t').isBind = true → t' ∈ reg := by
+  unfold exec
+  split
+  · exact bindReg_exec_c hS
+  · split
+    · exact bindReg_exec_b hS
+    · exact bindReg_exec_o hS
+
+theorem bindReg_begin (hS : Struct reg s) (hi : s.pc t = .idle) :
+    ∀ t', ((begin cfg reg s t).pc t').isBind = true → t' ∈ reg := by
+  have g0 := hS.bindReg
+  have g0t := hS.bindReg t
+  begin_cases
+  all_goals (try rw [hi] at g0t)
+  all_goals (try simp [Pc.isBind] at g0t)
+  all_goals (intro t' h1; by_cases ht : t' = t <;> first | (subst ht; try simp [upd_apply, afterLists, nextList, Pc.isBind] at h1 ⊢) | (try simp [ht, upd_apply, afterLists, nextList] at h1 ⊢))
+  all_goals grind [Pc.isBind]
+
+theorem regPc_exec_c (hS : Struct reg s) :
+    ∀ t', (execCancel cfg reg s t).pc t' = .gLock → t' ∈ reg ∧ (execCancel cfg reg s t).act t' = false ∧ (execCancel cfg reg s t).wasReg t' = false := by
+  have g0 := hS.regPc
+  have g0t := hS.regPc t
+  unfold execCancel
+  try unfold walkNext
+  try unfold afterHint
+  try unfold applyReset
+  repeat' split
+  all_goals (try rw [‹s.pc t = _›] at g0t)
+  all_goals (try simp [] at g0t)
+  all_goals (intro t' h1; by_cases ht : t' = t <;> first | (subst ht; try simp [upd_apply, afterLists, nextList, ] at h1 ⊢) | (try simp [ht, upd_apply, afterLists, nextList] at h1 ⊢))
+  all_goals grind []
+
+theorem regPc_exec_b (hS : Struct reg s) :
+    ∀ t', (execBind cfg s t).pc t' = .gLock → t' ∈ reg ∧ (execBind cfg s t).act t' = false ∧ (execBind cfg s t).wasReg t' = false := by
+  have g0 := hS.regPc
+  have g0t := hS.regPc t
+  unfold execBind
+  try unfold walkNext
+  try unfold afterHint
+  try unfold applyReset
+  repeat' split
+  all_goals (try rw [‹s.pc t = _›] at g0t)
+  all_goals (try simp [] at g0t)
+  all_goals (intro t' h1; by_cases ht : t' = t <;> first | (subst ht; try simp [upd_apply, afterLists, nextList, ] at h1 ⊢) | (try simp [ht, upd_apply, afterLists, nextList] at h1 ⊢))
+  all_goals grind []
+
+theorem regPc_exec_o (hS : Struct reg s) :
+    ∀ t', (execOther s t).pc t' = .gLock → t' ∈ reg ∧ (execOther s t).act t' = false ∧ (execOther s t).wasReg t' = false := by
+  have g0 := hS.regPc
+  have g0t := hS.regPc t
+  unfold execOther
+  try unfold walkNext
+  try unfold afterHint
+  try unfold applyReset
+  repeat' split
+  all_goals (try rw [‹s.pc t = _›] at g0t)
+  all_goals (try simp [] at g0t)
+  all_goals (intro t' h1; by_cases ht : t' = t <;> first | (subst ht; try simp [upd_apply, afterLists, nextList, ] at h1 ⊢) | (try simp [ht, upd_apply, afterLists, nextList] at h1 ⊢))
+  all_goals grind []
+
+theorem regPc_exec (hS : Struct reg s) :
+    ∀ t', (exec cfg reg s t).pc t' = .gLock → t' ∈ reg ∧ (exec cfg reg s t).act t' = false ∧ (exec cfg reg s t).wasReg t' = false := by
+  unfold exec
+  split
+  · exact regPc_exec_c hS
+  · split
+    · exact regPc_exec_b hS
+    · exact regPc_exec_o hS
+
+theorem regPc_begin (hS : Struct reg s) (hi : s.pc t = .idle) :
+    ∀ t', (begin cfg reg s t).pc t' = .gLock → t' ∈ reg ∧ (begin cfg reg s t).act t' = false ∧ (begin cfg reg s t).wasReg t' = false := by
+  have g0 := hS.regPc
+  have g0t := hS.regPc t
+  begin_cases
+  all_goals (try rw [hi] at g0t)
+  all_goals (try simp [] at g0t)
+  all_goals (intro t' h1; by_cases ht : t' = t <;> first | (subst ht; try simp [upd_apply, afterLists, nextList, ] at h1 ⊢) | (try simp [ht, upd_apply, afterLists, nextList] at h1 ⊢))
+  all_goals grind []
+
+theorem actReg_exec_c (hS : Struct reg s) :
+    ∀ u, (execCancel cfg reg s t).act u = true → u ∈ reg := by
+  have g0 := hS.actReg
+  have g1 := hS.regPc
+  have g1t := hS.regPc t
+  unfold execCancel
+  try unfold walkNext
+  try unfold afterHint
+  try unfold applyReset
+  repeat' split
+  all_goals (try rw [‹s.pc t = _›] at g1t)
+  all_goals (try simp [] at g1t)
+  all_goals (intro u h1; try simp [upd_apply, afterLists, nextList] at h1 ⊢)
+  all_goals grind []
+
+theorem actReg_exec_b (hS : Struct reg s) :
+    ∀ u, (execBind cfg s t).act u = true → u ∈ reg := by
+  have g0 := hS.actReg
+  have g1 := hS.regPc
+  have g1t := hS.regPc t
+  unfold execBind
+  try unfold walkNext
+  try unfold afterHint
+  try unfold applyReset
+  repeat' split
+  all_goals (try rw [‹s.pc t = _›] at g1t)
+  all_goals (try simp [] at g1t)
+  all_goals (intro u h1; try simp [upd_apply, afterLists, nextList] at h1 ⊢)
+  all_goals grind []
+
+theorem actReg_exec_o (hS : Struct reg s) :
+    ∀ u, (execOther s t).act u = true → u ∈ reg := by
+  have g0 := hS.actReg
+  have g1 := hS.regPc
+  have g1t := hS.regPc t
+  unfold execOther
+  try unfold walkNext
+  try unfold afterHint
+  try unfold applyReset
+  repeat' split
+  all_goals (try rw [‹s.pc t = _›] at g1t)
+  all_goals (try simp [] at g1t)
+  all_goals (intro u h1; try simp [upd_apply, afterLists, nextList] at h1 ⊢)
+  all_goals grind []
+
+theorem actReg_exec (hS : Struct reg s) :
+    ∀ u, (exec cfg reg s t).act u = true → u ∈ reg := by
+  unfold exec
+  split
+  · exact actReg_exec_c hS
+  · split
+    · exact actReg_exec_b hS
+    · exact actReg_exec_o hS
+
+theorem actReg_begin (hS : Struct reg s) (hi : s.pc t = .idle) :
+    ∀ u, (begin cfg reg s t).act u = true → u ∈ reg := by
+  have g0 := hS.actReg
+  have g1 := hS.regPc
+  have g1t := hS.regPc t
+  begin_cases
+  all_goals (try rw [hi] at g1t)
+  all_goals (try simp [] at g1t)
+  all_goals (intro u h1; try simp [upd_apply, afterLists, nextList] at h1 ⊢)
+  all_goals grind []
+
+theorem actWas_exec_c (hS : Struct reg s) :
+    ∀ u, (execCancel cfg reg s t).act u = true → (execCancel cfg reg s t).wasReg u = true := by
+  have g0 := hS.actWas
+  have g1 := hS.regPc
+  have g1t := hS.regPc t
+  unfold execCancel
+  try unfold walkNext
+  try unfold afterHint
+  try unfold applyReset
+  repeat' split
+  all_goals (try rw [‹s.pc t = _›] at g1t)
+  all_goals (try simp [] at g1t)
+  all_goals (intro u h1; try simp [upd_apply, afterLists, nextList] at h1 ⊢)
+  all_goals grind []
+
+theorem actWas_exec_b (hS : Struct reg s) :
+    ∀ u, (execBind cfg s t).act u = true → (execBind cfg s t).wasReg u = true := by
+  have g0 := hS.actWas
+  have g1 := hS.regPc
+  have g1t := hS.regPc t
+  unfold execBind
+  try unfold walkNext
+  try unfold afterHint
+  try unfold applyReset
+  repeat' split
+  all_goals (try rw [‹s.pc t = _›] at g1t)
+  all_goals (try simp [] at g1t)
+  all_goals (intro u h1; try simp [upd_apply, afterLists, nextList] at h1 ⊢)
+  all_goals grind []
+
+theorem actWas_exec_o (hS : Struct reg s) :
+    ∀ u, (execOther s t).act u = true → (execOther s t).wasReg u = true := by
+  have g0 := hS.actWas
+  have g1 := hS.regPc
+  have g1t := hS.regPc t
+  unfold execOther
+  try unfold walkNext
+  try unfold afterHint
+  try unfold applyReset
+  repeat' split
+  all_goals (try rw [‹s.pc t = _›] at g1t)
+  all_goals (try simp [] at g1t)
+  all_goals (intro u h1; try simp [upd_apply, afterLists, nextList] at h1 ⊢)
+  all_goals grind []
+
+theorem actWas_exec (hS : Struct reg s) :
+    ∀ u, (exec cfg reg s t).act u = true → (exec cfg reg s t).wasReg u = true := by
+  unfold exec
+  split
+  · exact actWas_exec_c hS
+  · split
+    · exact actWas_exec_b hS
+    · exact actWas_exec_o hS
+
+theorem actWas_begin (hS : Struct reg s) (hi : s.pc t = .idle) :
+    ∀ u, (begin cfg reg s t).act u = true → (begin cfg reg s t).wasReg u = true := by
+  have g0 := hS.actWas
+  have g1 := hS.regPc
+  have g1t := hS.regPc t
+  begin_cases
+  all_goals (try rw [hi] at g1t)
+  all_goals (try simp [] at g1t)
+  all_goals (intro u h1; try simp [upd_apply, afterLists, nextList] at h1 ⊢)
+  all_goals grind []
+
+theorem bindAct_exec_c (hS : Struct reg s) :
+    ∀ t', ((execCancel cfg reg s t).pc t').isBind = true → (execCancel cfg reg s t).act t' = true := by
+  have g0 := hS.bindAct
+  have g0t := hS.bindAct t
+  unfold execCancel
+  try unfold walkNext
+  try unfold afterHint
+  try unfold applyReset
+  repeat' split
+  all_goals (try rw [‹s.pc t = _›] at g0t)
+  all_goals (try simp [Pc.isBind] at g0t)
+  all_goals (intro t' h1; by_cases ht : t' = t <;> first | (subst ht; try simp [upd_apply, afterLists, nextList, Pc.isBind] at h1 ⊢) | (try simp [ht, upd_apply, afterLists, nextList] at h1 ⊢))
+  all_goals grind [Pc.isBind]
+
+theorem bindAct_exec_b (hS : Struct reg s) :
+    ∀ t', ((execBind cfg s t).pc t').isBind = true → (execBind cfg s t).act t' = true := by
+  have g0 := hS.bindAct
+  have g0t := hS.bindAct t
+  unfold execBind
+  try unfold walkNext
+  try unfold afterHint
+  try unfold applyReset
+  repeat' split
+  all_goals (try rw [‹s.pc t = _›] at g0t)
+  all_goals (try simp [Pc.isBind] at g0t)
+  all_goals (intro t' h1; by_cases ht : t' = t <;> first | (subst ht; try simp [upd_apply, afterLists, nextList, Pc.isBind] at h1 ⊢) | (try simp [ht, upd_apply, afterLists, nextList] at h1 ⊢))
+  all_goals grind [Pc.isBind]
+
+theorem bindAct_exec_o (hS : Struct reg s) :
+    ∀ t', ((execOther s t).pc t').isBind = true → (execOther s t).act t' = true := by
+  have g0 := hS.bindAct
+  have g0t := hS.bindAct t
+  unfold execOther
+  try unfold walkNext
+  try unfold afterHint
+  try unfold applyReset
+  repeat' split
+  all_goals (try rw [‹s.pc t = _›] at g0t)
+  all_goals (try simp [Pc.isBind] at g0t)
+  all_goals (intro t' h1; by_cases ht : t' = t <;> first | (subst ht; try simp [upd_apply, afterLists, nextList, Pc.isBind] at h1 ⊢) | (try simp [ht, upd_apply, afterLists, nextList] at h1 ⊢))
+  all_goals grind [Pc.isBind]
+
+theorem bindAct_exec (hS : Struct reg s) :
+    ∀ t', ((exec cfg reg s t).pc t').isBind = true → (exec cfg reg s t).act t' = true := by
+  unfold exec
+  split
+  · exact bindAct_exec_c hS
+  · split
+    · exact bindAct_exec_b hS
+    · exact bindAct_exec_o hS
+
+theorem bindAct_begin (hS : Struct reg s) (hi : s.pc t = .idle) :
+    ∀ t', ((begin cfg reg s t).pc t').isBind = true → (begin cfg reg s t).act t' = true := by
+  have g0 := hS.bindAct
+  have g0t := hS.bindAct t
   begin_cases
   all_goals (try rw [hi] at g0t)
   all_goals (try simp [Pc.isBind] at g0t)
